@@ -81,7 +81,7 @@ impl Drop for R {
 }
 impl Recorder for R {
     fn describe_counter(&self, _: KeyName, _: Option<Unit>, _: SharedString) {
-        assert_eq!(self.magic, 0xfeed_0000 + self.id as u64, "recorder seen partially constructed");
+        assert_eq!(self.magic, 0xfeed_0000 + self.id as u64, "sig=recorder-seen-partially-constructed: recorder seen partially constructed");
         self.hits.fetch_add(1 << (8 * self.id), StdOrdering::SeqCst);
     }
     fn describe_gauge(&self, _: KeyName, _: Option<Unit>, _: SharedString) {}
@@ -125,11 +125,11 @@ fn cell_scenario(pb: Option<usize>, installers: usize, readers: usize, handoff: 
                     match cell.set(r) {
                         Ok(()) => true,
                         Err(e) => {
-                            assert_eq!(d.load(StdOrdering::SeqCst), 0, "rejected recorder was dropped by the library");
-                            assert_eq!(e.0.magic, 0xfeed_0000 + i as u64, "rejected recorder not handed back intact");
+                            assert_eq!(d.load(StdOrdering::SeqCst), 0, "sig=rejected-recorder-dropped: rejected recorder was dropped by the library");
+                            assert_eq!(e.0.magic, 0xfeed_0000 + i as u64, "sig=rejected-recorder-not-intact: rejected recorder not handed back intact");
                             assert_eq!(e.0.id, i);
                             drop(e);
-                            assert_eq!(d.load(StdOrdering::SeqCst), 1, "rejected recorder leaked");
+                            assert_eq!(d.load(StdOrdering::SeqCst), 1, "sig=rejected-recorder-leaked: rejected recorder leaked");
                             false
                         }
                     }
@@ -148,8 +148,8 @@ fn cell_scenario(pb: Option<usize>, installers: usize, readers: usize, handoff: 
                         // installed recorder, its own later lookup must find that same recorder
                         let f = flag.load(loom::sync::atomic::Ordering::Acquire);
                         if f != 0 {
-                            let r = cell.try_load().expect("an emission was already dispatched to the recorder on another thread, but a later lookup fell through to no-op");
-                            assert_eq!(thin(r), f, "later emission reached a different recorder");
+                            let r = cell.try_load().expect("sig=later-emission-missed-recorder: an emission was already dispatched to the recorder on another thread, but a later lookup fell through to no-op");
+                            assert_eq!(thin(r), f, "sig=later-emission-other-recorder: later emission reached a different recorder");
                             r.describe_counter("x".into(), None, "d".into());
                             log.push('H');
                         } else {
@@ -162,7 +162,7 @@ fn cell_scenario(pb: Option<usize>, installers: usize, readers: usize, handoff: 
                             Some(r) => {
                                 let p = thin(r);
                                 if let Some(s) = seen {
-                                    assert_eq!(s, p, "lookup returned a different recorder later");
+                                    assert_eq!(s, p, "sig=later-emission-other-recorder: lookup returned a different recorder later");
                                 }
                                 seen = Some(p);
                                 r.describe_counter("x".into(), None, "d".into());
@@ -172,7 +172,7 @@ fn cell_scenario(pb: Option<usize>, installers: usize, readers: usize, handoff: 
                                 log.push('S');
                             }
                             None => {
-                                assert!(seen.is_none(), "recorder disappeared after it had been seen");
+                                assert!(seen.is_none(), "sig=recorder-disappeared: recorder disappeared after it had been seen");
                                 log.push('n');
                             }
                         }
@@ -183,15 +183,15 @@ fn cell_scenario(pb: Option<usize>, installers: usize, readers: usize, handoff: 
             .collect();
         let wins: Vec<bool> = inst.into_iter().map(|h| h.join().unwrap()).collect();
         let logs: Vec<String> = rds.into_iter().map(|h| h.join().unwrap()).collect();
-        assert_eq!(wins.iter().filter(|w| **w).count(), 1, "exactly one installer must win");
+        assert_eq!(wins.iter().filter(|w| **w).count(), 1, "sig=install-not-exactly-once: exactly one installer must win");
         let winner = wins.iter().position(|w| *w).unwrap();
-        assert_eq!(drops[winner].load(StdOrdering::SeqCst), 0, "installed recorder was dropped");
-        let r = cell.try_load().expect("installed recorder must be visible after install returned");
+        assert_eq!(drops[winner].load(StdOrdering::SeqCst), 0, "sig=installed-recorder-dropped: installed recorder was dropped");
+        let r = cell.try_load().expect("sig=installed-recorder-invisible: installed recorder must be visible after install returned");
         r.describe_counter("x".into(), None, "d".into());
         let h = hits.load(StdOrdering::SeqCst);
         for i in 0..installers {
             if i != winner {
-                assert_eq!((h >> (8 * i)) & 0xff, 0, "an emission reached a recorder that lost the installation race");
+                assert_eq!((h >> (8 * i)) & 0xff, 0, "sig=emission-reached-losing-recorder: an emission reached a recorder that lost the installation race");
             }
         }
         outcome(format!("winner={} readers={:?}", winner, logs));
@@ -340,17 +340,17 @@ fn counter_scenario(pb: Option<usize>, alpha: &'static [COp], shapes: &[&[usize]
                 if let Some(o) = obs {
                     let (a, b) = o.join().unwrap();
                     if monotone {
-                        assert!(a <= b && b <= fin, "counter value decreased: observed {} then {} then final {}", a, b, fin);
+                        assert!(a <= b && b <= fin, "sig=counter-decreased: counter value decreased: observed {} then {} then final {}", a, b, fin);
                     }
                 }
-                assert!(allowed2.contains(&fin), "counter final value {} is not the result of any sequential order of {:?} (allowed {:?})", fin, asg2, allowed2);
+                assert!(allowed2.contains(&fin), "sig=counter-update-lost-or-misapplied: counter final value {} is not the result of any sequential order of {:?} (allowed {:?})", fin, asg2, allowed2);
                 if only_inc {
                     let sum = asg2.iter().flatten().fold(0u64, |s, o| if let COp::Inc(x) = alpha[*o] { s.wrapping_add(x) } else { s });
-                    assert_eq!(fin, sum, "increments lost");
+                    assert_eq!(fin, sum, "sig=counter-update-lost-or-misapplied: increments lost");
                 }
                 if let Some(m) = max_abs {
                     if monotone {
-                        assert!(fin >= m, "counter ended below the largest absolute value");
+                        assert!(fin >= m, "sig=counter-below-absolute: counter ended below the largest absolute value");
                     }
                 }
                 outcome(format!("C {:?} -> {}", asg2, fin));
@@ -411,7 +411,7 @@ fn gauge_scenario(pb: Option<usize>, alpha: &'static [GOp], shapes: &[&[usize]])
                     h.join().unwrap();
                 }
                 let fin = canon(c.load(loom::sync::atomic::Ordering::Acquire));
-                assert!(allowed.contains(&fin), "gauge final value {} is not the result of any sequential order of {:?}", f64::from_bits(fin), asg2);
+                assert!(allowed.contains(&fin), "sig=gauge-update-lost-or-misapplied: gauge final value {} is not the result of any sequential order of {:?}", f64::from_bits(fin), asg2);
                 outcome(format!("G {:?} -> {:x}", asg2, fin));
             });
         }
